@@ -32,13 +32,30 @@ def check(prop, tier, seed, replay_path=None, selftest=False, keep=False):
         mcs.append(V.tlc_mc(scratch, "GenLoop", "GenLoop.cfg"))
         expected.append(tlc_expect_violation(scratch, "GenLoop", "GenLoop_cacheonce.cfg", "PerFile"))
         cdir, entries, drv = corpus.build(scratch)
+        # spec -> code: the parameter domain TLC printed, one plug-in run per (key, value)
+        mclog = open(os.path.join(scratch.dir, "mc-MCGenerator", "tlc.log")).read()
+        dom = scratch.path("params.txt")
+        with open(dom, "w") as f:
+            f.write("\n".join(l for l in mclog.splitlines() if '"PARAM"' in l) + "\n")
+        gen = V.build_harness(scratch, "corpusgen")
+        pout = scratch.sub("paramprobe")
+        V.run([gen, "-paramprobe", dom, "-plugins", os.path.join(cdir, "plugins"), "-out", pout], timeout=900)
+        params = [json.loads(l) for l in open(os.path.join(pout, "params.ndjson"))]
+        if len(params) < 100:
+            raise V.Inconclusive("TLC emitted only %d parameter pairs" % len(params))
         tf = scratch.path("c16.ndjson")
         events = []
         with open(tf, "w") as f:
+            for pe in params:
+                ev = dict(pe, rterr="", base="probe", flavour="", set="", syntax="proto3", features=[], params=pe["form"], req={"prefix": "", "permsg": False, "msgs": []},
+                          o={"err1": pe["err"], "err2": "", "names": [], "sha1": [], "sha2": [], "multi": 0, "err3": "", "sha3": [], "parsed": [], "compiled": 0}, compile_err="")
+                events.append(ev)
+                f.write(json.dumps(ev) + "\n")
             for e in entries:
                 files = e["files"] or []
                 prefix = "%s/%s" % (e["dir"], e["base"])
                 ev = {
+                    "c": "gen", "k": "", "v": "", "ok": 0,
                     "base": e["base"], "flavour": e["flavour"], "set": e["set"], "syntax": e["syntax"], "features": e["features"], "params": e["params"],
                     "rterr": e["runtime_gen_err"],
                     "req": {"prefix": prefix, "permsg": "filepermessage=true" in e["params"],
@@ -62,6 +79,10 @@ def check(prop, tier, seed, replay_path=None, selftest=False, keep=False):
         for n, i in enumerate(r["bad"]):
             e = events[i - 1]
             o = e["o"]
+            if e["c"] == "param":
+                sig = {"kind": "parameter-accepted" if e["ok"] else "parameter-refused", "base": "probe", "flavour": "", "set": "", "syntax": "", "features": "", "cause": e["k"]}
+                verdicts.fail(sig, {"property": prop, "event": {k: e[k] for k in ("c", "k", "v", "form", "ok", "err")}}, "%d-param-%s" % (n, e["k"]))
+                continue
             if o["err1"] or o["err2"]:
                 kind = "generator-error"
             elif len(set(o["names"])) != len(o["names"]):
@@ -89,8 +110,9 @@ def check(prop, tier, seed, replay_path=None, selftest=False, keep=False):
             "states": sum(m["states"] for m in mcs), "transitions": sum(m["transitions"] for m in mcs),
             "traces_validated_against_impl": len(events),
             "evaluations": len(events), "distinct_nontrivial": len({(e["base"], e["flavour"], e["set"]) for e in events if e["req"]["msgs"]}),
+            "parameter_domain_runs": len(params),
             "rule": RULE, "exhaustive": True,
-            "samples": [{k: events[i][k] for k in ("base", "flavour", "set", "params", "req", "o")} for i in (0, len(events) // 2)],
+            "samples": [{k: events[i][k] for k in ("base", "flavour", "set", "params", "req", "o")} for i in (len(params), len(params) + (len(events) - len(params)) // 2)] + [{k: events[0][k] for k in ("c", "k", "v", "form", "ok")}],
             "expected_violation_configs": expected,
             "explanation": "exhaustive over the corpus product; 'valid Go that compiles' is read from go/parser and go build (sensors), the specification "
                            "contributes the enumeration and judges names / determinism / totality",
